@@ -375,7 +375,7 @@ LATE = 1.5         # seconds after the signal at which the client sends what it 
 KEEPALIVE = 8
 
 
-def scenario(cls, phase, app, sig, graceful=4, bind="unix", saturated=False, timeout=None):
+def scenario(cls, phase, app, sig, graceful=4, bind="unix", saturated=False, timeout=None, two_binds=False):
     """app: 'finish' (needs 1.2 s), 'overrun' (graceful + 3 s), 'never' (60 s); saturated: worker_connections = 1 and one more
     client waiting for a slot when the signal arrives (gevent / eventlet: the acceptor is inside pool.spawn, not in accept);
     timeout: the worker `timeout` setting when it is to be SHORTER than the request and than graceful_timeout (a worker class
@@ -389,13 +389,15 @@ def scenario(cls, phase, app, sig, graceful=4, bind="unix", saturated=False, tim
         scn["saturated"] = True
     if timeout is not None:
         scn["timeout"] = timeout
+    if two_binds:
+        scn["two_binds"] = True          # a second listener on which nothing ever arrives (the connection is on the FIRST one)
     return scn
 
 
 def real_case(scn):
     """-> observation dict"""
     srv = R.Server(worker_class=scn["cls"], workers=1, graceful=scn["graceful"], bind=scn["bind"], keepalive=KEEPALIVE,
-                   timeout=scn.get("timeout", 30), extra=({"worker_connections": 1} if scn.get("saturated") else None))
+                   timeout=scn.get("timeout", 30), second_bind=bool(scn.get("two_binds")), extra=({"worker_connections": 1} if scn.get("saturated") else None))
     obs = {"scn": scn}
     extra_client = None
     try:
@@ -563,6 +565,8 @@ def real_scenarios(ctx):
         scns = [scenario(c, p, a, s, graceful=4, bind=("unix" if i % 4 else "tcp")) for i, (c, p, a, s) in enumerate(QUICK_REAL)]
         scns.append(scenario("eventlet", "app", "finish", "TERM", graceful=4, bind="unix", saturated=True))
         scns.append(scenario("gevent", "app", "finish", "TERM", graceful=4, bind="tcp", saturated=True))
+        scns.append(scenario("gevent", "app", "finish", "TERM", graceful=4, bind="tcp", two_binds=True))
+        scns.append(scenario("eventlet", "resp", "finish", "TERM", graceful=4, bind="unix", two_binds=True))
         scns.append(scenario("gthread", "app", "finish", "TERM", graceful=6, bind="unix", timeout=2))
         scns.append(scenario("eventlet", "app", "finish", "TERM", graceful=6, bind="tcp", timeout=2))
         # two more, chosen by the seed
@@ -586,6 +590,9 @@ def real_scenarios(ctx):
     for c in ("gevent", "eventlet", "gthread"):
         for p in ("app", "resp"):
             scns.append(scenario(c, p, "finish", "TERM", graceful=6, bind="unix", timeout=2))
+    for c in CLS_COQ:
+        for p in ("head", "app", "resp"):
+            scns.append(scenario(c, p, "finish", "TERM", graceful=4, bind=("tcp" if p == "app" else "unix"), two_binds=True))
     return scns
 
 
